@@ -27,7 +27,7 @@ NativeAgree ==
   /\ \A a \in S1 : WDec(FromInt(a)) = Dec(a)
 ASSUME NativeAgree
 
-OldCases == NumCases(SetA) \cup NumCases(SetB) \cup NumCases(SetC) \cup NumCases(SetD(Small3)) \cup StrCases
+OldCases == NumCases(SetA) \cup NumCases(SetB) \cup NumCases(SetC) \cup NumCases(SetD(Small3)) \cup NumCases(SetE) \cup StrCases
 Cases == {[c EXCEPT !.old = TRUE] : c \in {[tree |-> x.tree, dir |-> x.dir, enc |-> x.enc, old |-> TRUE] : x \in OldCases}}
          \cup {[tree |-> x.tree, dir |-> x.dir, enc |-> x.enc, old |-> FALSE] : x \in WCases(Deep)}
 
